@@ -145,7 +145,11 @@ func fieldBoolFact(facts map[atomKey]bool, f *types.Var) (val, known bool) {
 
 // walkAll enumerates paths and reports incompleteness as undecided. Returns false if undecided.
 func walkAll(c *Ctx, rule string, fn *ssa.Function, visit func(p *Path)) bool {
-	n, complete := WalkPaths(fn, PathOpts{}, func(p *Path) bool { visit(p); return true })
+	return walkAllOpts(c, rule, fn, PathOpts{}, visit)
+}
+
+func walkAllOpts(c *Ctx, rule string, fn *ssa.Function, opts PathOpts, visit func(p *Path)) bool {
+	n, complete := WalkPaths(fn, opts, func(p *Path) bool { visit(p); return true })
 	if !complete {
 		c.Undecided(rule, FuncName(fn), fmt.Sprintf("path bound exceeded after %d paths", n))
 		return false
@@ -236,4 +240,19 @@ func (p *Path) Deref(v ssa.Value, at int) ssa.Value {
 		v, at = st.Val, bi
 	}
 	return v
+}
+
+// boolAfter: the truth value of the boolean result of the call occurrence at block
+// ordinal at, as decided by the first branch on it after that occurrence.
+func boolAfter(p *Path, call ssa.Value, at int) (val, known bool) {
+	key := atomKey{token.ILLEGAL, canon(call), nil}
+	for j := at + 1; j < len(p.Blocks); j++ {
+		if v, ok := p.FactsAt(j)[key]; ok {
+			return v, true
+		}
+		if p.Blocks[j] == p.Blocks[at] {
+			break // re-executed before being tested
+		}
+	}
+	return false, false
 }
